@@ -210,10 +210,18 @@ class SmilesToken(BigSMILESbase):
 
     def generate_smiles_fragment(self):
         string = ""
-        for element in self.elements:
+        for i, element in enumerate(self.elements):
             element_string = ""
             if isinstance(element, str):
                 element_string += element
+                # Bond characters next to a bond descriptor describe the bond of the descriptor,
+                # they are not part of the fragment.
+                if i + 1 < len(self.elements) and isinstance(self.elements[i + 1], BondDescriptor):
+                    element_string = element_string.rstrip("-=#$:")
+                if i == 1 and isinstance(self.elements[0], BondDescriptor):
+                    element_string = element_string.lstrip("-=#$:")
+                if len(element_string) == 0:
+                    continue
             if isinstance(element, Atom):
                 element_string += element.generate_string(False)
             if isinstance(element, BondDescriptor):
